@@ -164,10 +164,11 @@ theorem validate_iff_partial (d : Doc) (h : validDoc d = true) :
       ∃ decl, findDecl d.decls e.name = some decl ∧ Lang decl.content (e.children.map (·.name)) ∧
         (e.text = true → textAllowed decl.content = true) := by
   unfold validDoc at h
-  rw [List.isEmpty_iff] at h
+  rw [Bool.and_eq_true, List.isEmpty_iff, List.isEmpty_iff] at h
+  obtain ⟨_, h⟩ := h
   unfold violations at h
   simp only [List.append_eq_nil_iff] at h
-  obtain ⟨⟨⟨⟨_, hroot⟩, hel⟩, _⟩, _⟩ := h
+  obtain ⟨⟨⟨⟨⟨⟨_, hroot⟩, hel⟩, _⟩, _⟩, _⟩, _⟩ := h
   constructor
   · by_cases hr : (d.root.name == d.doctype) = true
     · simpa using hr
@@ -182,7 +183,7 @@ theorem validate_iff_partial (d : Doc) (h : validDoc d = true) :
     | some decl =>
       rw [hf] at h1
       simp only [List.append_eq_nil_iff] at h1
-      obtain ⟨h2, h3⟩ := h1
+      obtain ⟨⟨h2, h3⟩, _⟩ := h1
       refine ⟨decl, rfl, ?_, ?_⟩
       · by_cases hm : derivMatch decl.content (e.children.map (·.name)) = true
         · exact (deriv_iff _ _).1 hm
@@ -190,16 +191,19 @@ theorem validate_iff_partial (d : Doc) (h : validDoc d = true) :
       · intro ht
         by_cases hta : textAllowed decl.content = true
         · exact hta
-        · have : (e.text && !textAllowed decl.content) = true := by
-            simp [ht]; simpa using hta
+        · have ht' : e.x.text = true := ht
+          have : ((e.x.text || !e.x.refs.isEmpty) && !textAllowed decl.content) = true := by
+            simp [ht']; simpa using hta
           rw [if_pos this] at h3; cases h3
 
 open XV.Spec.DtdValid in
-example : validDoc ⟨0, [⟨0, .children (.seq (.leaf 1) (.star (.leaf 1))), [⟨0, .id, .required⟩]⟩,
-                         ⟨1, .mixed [1], [⟨0, .idref, .implied⟩, ⟨1, .enum [10, 11], .dflt [10]⟩]⟩],
-    .mk 0 false [⟨0, [20]⟩] [.mk 1 true [⟨0, [20]⟩] [], .mk 1 false [⟨1, [11]⟩] []]⟩ = true := by decide
+example : validDoc { doctype := 0, decls := [⟨0, .children (.seq (.leaf 1) (.star (.leaf 1))), [⟨0, .id, .required, false⟩], false⟩, ⟨1, .mixed [1], [⟨0, .idref, .implied, false⟩, ⟨1, .enum [10, 11], .dflt [10], false⟩], false⟩], root := .mk 0 {} [⟨0, [20], false⟩] [.mk 1 { text := true } [⟨0, [20], false⟩] [], .mk 1 {} [⟨1, [11], false⟩] []] } = true := by decide
 open XV.Spec.DtdValid in
-example : violations ⟨0, [⟨0, .children (.leaf 1), [⟨0, .enum [10, 11], .implied⟩]⟩, ⟨1, .empty, []⟩],
-    .mk 0 false [⟨0, [10, 11]⟩] [.mk 1 false [] []]⟩ = ["attribute-value-type:enumeration-list-of-members"] := by decide
+example : violations { doctype := 0, decls := [⟨0, .children (.leaf 1), [⟨0, .enum [10, 11], .implied, false⟩], false⟩, ⟨1, .empty, [], false⟩], root := .mk 0 {} [⟨0, [10, 11], false⟩] [.mk 1 {} [] []] } = ["attribute-value-type:enumeration-list-of-members"] := by decide
+-- the standalone clause the independently seeded fault removed: an omitted, externally declared #FIXED default
+open XV.Spec.DtdValid in
+example : violations { doctype := 0, standalone := true, hasExt := true, decls := [⟨0, .empty, [⟨0, .cdata, .fixed [1], true⟩], false⟩], root := .mk 0 {} [] [] } = ["standalone:externally-declared-default-needed"] := by decide
+open XV.Spec.DtdValid in
+example : validDoc { doctype := 0, standalone := false, hasExt := true, decls := [⟨0, .empty, [⟨0, .cdata, .fixed [1], true⟩], false⟩], root := .mk 0 {} [] [] } = true := by decide
 
 end XV.Props.C07
